@@ -82,7 +82,33 @@ def eval_zone(case):
     return ev
 
 
+def eval_binary_sections(case):
+    """Binary input with a `sections` list in and out of file order: the eight ways of asking agree there as well - also for a rule
+    whose only occurrence runs from the last instruction of one section into the first of the next."""
+    from props.c18_addr_range import _range_binary
+
+    ev = Eval()
+    sc = jasm_io.scratch()
+    path = sc.write("c12_sections.elf", _range_binary())
+    secs = case["binary_sections"]
+    rule = {"ret": ["ret"], "ret-push": ["ret", "push"], "or": [{"$or": ["push", "pop"]}], "call": ["call"]}[case["rule"]]
+    rp = sc.write("c12_sections_rule.yaml", jasm_io.rule_text(jasm_io.make_doc(rule, config={"sections": secs})))
+    res = {}
+    for mode in ("bool", "list"):
+        for search in ("first", "all"):
+            for only in (False, True):
+                res[(mode, search, only)] = jasm_io.match_files(rp, path, mode=mode, search=search, only_addr=only, binary=True)
+    ev.subcases = 8
+    lists = agree(ev, res)
+    ev.tags = ["binary-sections", "binary-sections-rule=" + case["rule"]]
+    ev.nontrivial = bool(lists and lists[("all", True)])
+    ev.keys = [("binary-sections", tuple(secs), case["rule"])]
+    return ev
+
+
 def _zone_worker(case):
+    if "binary_sections" in case:
+        return case, eval_binary_sections(case)
     return case, eval_zone(case)
 
 
@@ -95,6 +121,8 @@ def extra(tier, seed, rep):
     todo = [{"zone_cut": c, "rule": r} for c in sorted(cuts, reverse=True) for r in ("pair", "varlen", "ordered-or", "long")]
     # the greedy run across the cut (the rule whose first match a windowed search truncates) at every chunk-size candidate
     todo = [{"zone_cut": c, "rule": "varlen"} for c in sorted(longlist.CUTS, reverse=True) if c not in cuts] + todo
+    todo = [{"binary_sections": list(secs_), "rule": r_} for secs_ in ((".text", ".text.hot"), (".text.hot", ".text"), (".text.hot", ".nosuch", ".text")) for r_ in ("ret", "ret-push", "or", "call")] + todo
+    rep.exhaustive_parts.append("binary input with 3 section lists in and out of file order x 4 rules (one of them straddling the section boundary): the 8 modes agree")
     with mp.get_context("fork").Pool(16, maxtasksperchild=1) as pool:
         for case, ev in pool.imap_unordered(_zone_worker, todo, chunksize=1):
             rep.add_eval(case, ev)
@@ -102,6 +130,8 @@ def extra(tier, seed, rep):
 
 
 def evaluate(case):
+    if "binary_sections" in case:
+        return eval_binary_sections(case)
     if "zone_cut" in case:
         return eval_zone(case)
     ev = Eval()
